@@ -3,7 +3,7 @@
 (* the constructor sweep.                                                   *)
 EXTENDS Nurbs
 
-CONSTANTS Breaks, Degs, MaxNpts, CtorLen, Rich
+CONSTANTS Breaks, Degs, MaxNpts, CtorLen, Rich, Acts     \* Acts = {} means every action
 
 AllKV == KVs(Breaks, Degs, MaxNpts)
 NaN == <<0, 0>>
@@ -12,14 +12,15 @@ CtorSeqs == SeqsUpTo(Alphabet, CtorLen)
        \cup {<<R(0), NaN>>, <<R(0), R(0), NaN, R(1), R(1)>>, <<R(0), R(0), Half, R(1), R(1)>>,
              <<R(0), R(0), Half, Half, Half, R(1), R(1)>>, <<R(1), R(1), R(0), R(0)>>}
 
-MCInit == {[a |-> NoObj]} \cup {[a |-> KvObj(U)] : U \in AllKV}
+MCInit == (IF Acts = {} THEN {[a |-> NoObj]} ELSE {}) \cup {[a |-> KvObj(U)] : U \in AllKV}
 
-Others(U) == {V \in AllKV : Limits(V) = Limits(U) /\ (Rich \/ Npts(V) <= 4)}
+Others(U) == {V \in AllKV : Limits(V) = Limits(U) /\ (Rich \/ Acts # {} \/ Npts(V) <= 4)}
              \cup {<<R(0), R(0), R(7), R(7)>>}
 
 NodePool(U) == KnotSet(U) \cup Midpoints(U) \cup Outside(U)
 
 MCArgs(name, h, dep) ==
+  IF Acts # {} /\ name \notin Acts THEN {} ELSE
   LET o == h["a"] IN
   IF o.kind = "none" THEN
      IF name = "KvNew"
